@@ -41,7 +41,7 @@ def all_specs():
             for order in (['call_define_call', 'define_call'] if target == 'global_late' else ['-']):
                 out.append({'placement': 'module', 'depth': 0, 'shape': shape, 'target': target, 'order': order, 'spellings': sp(target)})
         for depth in (1, 2, 3):
-            for target in ('local_early', 'local_late', 'global_early', 'global_late', 'never', 'local_shadows_global'):
+            for target in ('local_early', 'local_late', 'global_early', 'global_late', 'never', 'local_shadows_global', 'two_activations'):
                 orders = ['call_define_call', 'define_call', 'returned_only'] if target == 'local_late' else \
                     ['call_define_call', 'define_call'] if target == 'global_late' else ['-']
                 for order in orders:
@@ -86,6 +86,11 @@ def model_case(spec):
         if tg == 'local_early':
             pl0 = [1]
             ev = calls(True) + [('return',)] + calls(True)
+        elif tg == 'two_activations':
+            # two proxies, two lives: the first activation resolves from its running frame, the second only after its return
+            ev = [('deflocal', 1)] + calls(True)
+            second = [('deflocal', 1), ('return',)] + calls(True)
+            return {'nested': True, 'alive': True, 'g0': [], 'pl0': [], 'names': [], 'attrs': [], 'events': ev, 'second': second}
         elif tg == 'local_shadows_global':
             g0, pl0 = [7], [1]
             ev = calls(True) + [('return',)] + calls(True)
@@ -235,7 +240,7 @@ def run(ctx):
         obs = run_impl('c07_impl.py', {'cases': part}, timeout=1800)
         for spec, o in zip(part, obs):
             m = model_case(spec)
-            ncalls = sum(1 for e in m['events'] if e[0] == 'call')
+            ncalls = sum(1 for e in m['events'] + m.get('second', []) if e[0] == 'call')
             nested = spec['placement'] == 'closure' or (spec['placement'] == 'method' and spec.get('decor') == 'function')
             per_spelling = {}
             for spl, r in o.items():
@@ -268,7 +273,15 @@ def run(ctx):
                     ctx.report({'clause': 'unexpected_outcome', 'placement': spec['placement'], 'target': spec['target']},
                                {'spec': spec, 'spelling': spl, 'observed': r}, 'a probe ended with an exception that is neither a violation nor a forward-reference error')
                     continue
-                rows.append(coq_case(spec, m, [OBS[row['got']] for row in r['rows']]))
+                obs_all = [OBS[row['got']] for row in r['rows']]
+                if 'second' in m:
+                    n1 = sum(1 for e in m['events'] if e[0] == 'call')
+                    rows.append(coq_case(spec, m, obs_all[:n1]))
+                    index.append((spec, spl, r))
+                    rows.append(coq_case(spec, dict(m, events=m['second']), obs_all[n1:]))
+                    index.append((spec, spl, r))
+                    continue
+                rows.append(coq_case(spec, m, obs_all))
                 index.append((spec, spl, r))
             # all spellings of one program agree with each other
             vecs = {json.dumps(v) for v in per_spelling.values()}
